@@ -10,7 +10,7 @@ from .common import analysis, names_in, true_facts, truthy_texts
 from .c09 import label_slice
 
 PROP = "C10"
-TECHNIQUE = "validator table totality; CFG dominance for raise-iff-False and the validation gate before encoding; propositional decision table of the strict / default / nullable logic in writer and validator; conjunction discipline of container validators; escape census of non-ValidationError raises over the call graph"
+TECHNIQUE = "validator table totality; per-path summaries for raise-iff-False, the strict missing-value arm and NoValue->None; CFG dominance of the validation gate before encoding; propositional decision table of the strict / default / nullable logic; conjunction idioms of container validators and validate_many; escape census of non-ValidationError raises over the call graph"
 LEVEL_TEXT = (
     "Static analysis: VALIDATORS covers every kind the writers encode and only _validate dispatches through it; _validate has one "
     "return, dominated by the raise-iff-False test; container validators must and-combine the verdict of every element; the "
